@@ -167,7 +167,7 @@ package satisfaction
 //@   requires [parameters] typeis(dmp.MethodParameters, SatisfactionParameters)
 //@   requires [distinct_alternatives] model.distinctAltIds(dmp.ConsideredAlternatives)
 //@   returnhint [level_source_named_in_the_request] len(params.Function) > 0 && exists k int :: 0 <= k && k < len(s.functions) && satisfaction_levels.sourceName(s.functions[k]) == params.Function
-//@             && satisfactionLevels == satisfaction_levels.blankOf(s.functions[k]) && forall j int :: 0 <= j && j < k ==> satisfaction_levels.sourceName(s.functions[j]) != params.Function
+//@             && satisfaction_levels.madeBy(satisfactionLevels, s.functions[k]) && forall j int :: 0 <= j && j < k ==> satisfaction_levels.sourceName(s.functions[j]) != params.Function
 //@   returnhint [accepted_first_then_the_leftovers] len(result) == 1 + len(considered) && 0 <= resultInsertIndex && resultInsertIndex + len(leftToChoice) == len(result)
 //@             && (forall k int :: 0 <= k && k < resultInsertIndex ==> meets(result[k].Alternative, dmp.Criteria, result[k].Evaluation.(SatisfactionEvaluation).SatisfiedThresholds)
 //@                    && result[k].Evaluation.(SatisfactionEvaluation).ThresholdsIndex <= thresholdIndex)
@@ -201,3 +201,27 @@ package satisfaction
 //@ wire SatisfactionEvaluation
 //@   property C01 C09 C13 C20
 //@   json SatisfiedThresholds=satisfiedThresholds ThresholdsIndex=thresholdsIndex
+
+// ---- registered names (what a request must say to select this object; what error messages list)
+//@ func (*SatisfactionBiasListener).Identifier
+//@   property C07 C20
+//@   nopanic
+//@   ensures [name] result == "satisfactionHeuristic"
+
+// ---- registered names (what a request must say to select this object; what error messages list)
+//@ func (*Satisfaction).Identifier
+//@   property C01 C09 C13 C20
+//@   nopanic
+//@   ensures [name] result == "satisfactionHeuristic"
+
+// ---- importance of a criterion for this method (C15): its values summed over the considered alternatives
+//@ spec saImportance(l model.BiasListener, p *model.DecisionMakingParams, id string) real = model.cumw(p.ConsideredAlternatives, id, len(p.ConsideredAlternatives), model.WeightIdentity)
+//@ func (*SatisfactionBiasListener).RankCriteriaAscending
+//@   property C15 C07 C16 C18 C19
+//@   refines model.BiasListener.RankCriteriaAscending with validParams=saValid, coversId=saCovers, imp=saImportance
+//@   requires [distinct] model.distinctCriteria(params.Criteria)
+//@   ensures [every_criterion_once_ascending] result != nil && fresh(result) && fresh(*result) && len(*result) == len(params.Criteria)
+//@             && (forall k int :: 0 <= k && k < len(*result) ==> exists j int :: 0 <= j && j < len(params.Criteria) && (*result)[k].Criterion == params.Criteria[j])
+//@             && (forall i int, j int :: 0 <= i && i < j && j < len(*result) ==> (*result)[i].Id != (*result)[j].Id && (*result)[i].Weight <= (*result)[j].Weight)
+//@   ensures [importance_is_the_sum_of_values_over_the_considered_alternatives] forall k int :: 0 <= k && k < len(*result) ==> exists j int :: 0 <= j && j < len(params.Criteria) && (*result)[k].Criterion == params.Criteria[j]
+//@             && (*result)[k].Weight == old(model.cumw(params.ConsideredAlternatives, params.Criteria[j].Id, len(params.ConsideredAlternatives), model.WeightIdentity))
